@@ -275,7 +275,7 @@ Definition square_root_mod_prime (a p : Z) : result Z :=
   if p mod 8 =? 5 then
     let d := powmod a ((p - 1) / 4) p in
     if d =? 1 then Ok (powmod a ((p + 3) / 8) p) else
-    if negb (d =? p - 1) then Err EAssert else
+    if negb (d =? p - 1) then Err ESquareRoot else      (* "p is not prime" (was an assert before the fix) *)
     Ok ((2 * a * powmod (4 * a) ((p - 5) / 8) p) mod p)
   else sqrt_search a p.
 
